@@ -101,3 +101,52 @@ def read_cmap(cm):
             covered = max(covered, e)
     res["ref"] = pieces
     return res
+
+
+def read_feat_sill_name(S):
+    """Independent reader of Feat / Sill / name: abstract feature model of a shipped font (spec/Features.tla vocabulary)."""
+    ft = S.table("Feat")
+    if not ft:
+        return None
+    ver, n = struct.unpack(">IH", ft[:6])
+    feats = []
+    p = 12
+    for i in range(n):
+        if ver >= 0x00020000:
+            fid, ns, _, off, flags, label = struct.unpack(">IHHIHH", ft[p:p + 16]); p += 16
+        else:
+            fid, ns, off, flags, label = struct.unpack(">HHIHH", ft[p:p + 12]); p += 12
+        sets = [struct.unpack(">HH", ft[off + 4 * j: off + 4 * j + 4]) for j in range(ns)]
+        feats.append({"id": fid, "flags": flags, "label": label, "settings": [s[0] for s in sets], "setlabels": [s[1] for s in sets]})
+    def fmax(f):
+        return max(f["settings"]) if f["settings"] else None
+    defaults = [(f["settings"][0] if f["settings"] else 0) for f in feats]
+    langs = []
+    sl = S.table("Sill")
+    if sl and len(sl) >= 12:
+        nl = struct.unpack(">H", sl[4:6])[0]
+        for i in range(nl):
+            tag, ns, off = struct.unpack(">IHH", sl[12 + 8 * i: 20 + 8 * i])
+            vals = list(defaults)
+            for j in range(ns):
+                fid, v = struct.unpack(">IH", sl[off + 8 * j: off + 8 * j + 6])
+                for k, f in enumerate(feats):
+                    if f["id"] == fid and (fmax(f) is None or v <= fmax(f)):
+                        vals[k] = v
+            for k, f in enumerate(feats):          # language id goes to feature id 1 when it accepts it
+                if f["id"] == 1 and (fmax(f) is None or tag <= fmax(f)):
+                    vals[k] = tag & 0xFFFF if fmax(f) is not None else None   # 32-bit store; only the low 16 bits are readable
+            langs.append({"tag": tag, "values": vals})
+    names = {}
+    nm = S.table("name")
+    if nm:
+        fmt, cnt, so = struct.unpack(">HHH", nm[:6])
+        for i in range(cnt):
+            pid, eid, lid, nid, ln, off = struct.unpack(">HHHHHH", nm[6 + 12 * i: 18 + 12 * i])
+            if pid == 3 and eid == 1 and lid == 0x409 and nid not in names:
+                raw = nm[so + off: so + off + ln]
+                names[nid] = list(struct.unpack(">%dH" % (len(raw) // 2), raw[:len(raw) // 2 * 2]))
+    for f in feats:
+        f["label_u16"] = names.get(f["label"])
+        f["setlabels_u16"] = [names.get(x) for x in f["setlabels"]]
+    return {"feats": feats, "defaults": defaults, "langs": langs}
